@@ -77,8 +77,6 @@ rule('C14.7')(c01.layout_agreement)
 rule('C14.8')(c01.text_paths)                  # '*' / '**' text spelling
 rule('C12.6')(c11.broadcast)                   # delete acts on every wildcard match
 rule('C20.15')(c13.memo_key)
-# no new shared mutable state, for every property whose outcome could depend on it
-for _pid, _n in (('C01', 12), ('C03', 14), ('C04', 12), ('C05', 9), ('C07', 12), ('C08', 9), ('C09', 10), ('C10', 7), ('C11', 10),
-                 ('C12', 7), ('C14', 9), ('C15', 9), ('C16', 8), ('C17', 10), ('C18', 10), ('C19', 6)):
-    rule('%s.%d' % (_pid, _n))(c06.closed_inventory)
+# matching keeps no process-wide state (compiled patterns, memoised specs)
+rule('C09.10')(c06.closed_inventory)
 rule('C13.10')(c01.identity_flow)             # the accessor of a path segment always comes from the registry
